@@ -287,6 +287,9 @@ class GPTNeoXKFACEigenLayer(KFACEigenLayer):
         # with reduce_scatter where the reduction operation is sum and the
         # non_src ranks contribute zero filled tensors
         if get_world_size(self.model_parallel_group) > 1:
+            # Receive into a new buffer: grad_partition is the gradient of the
+            # module which is still needed to compute the gradient scale.
+            grad_partition = torch.empty_like(grad_partition)
             torch.distributed.reduce_scatter(
                 grad_partition,
                 weight_grads,
@@ -298,6 +301,7 @@ class GPTNeoXKFACEigenLayer(KFACEigenLayer):
         if self.module.has_bias():
             if get_world_size(self.model_parallel_group) > 1:
                 if self.parallelism == 'output':
+                    bias_grad_partition = torch.empty_like(bias_grad_partition)
                     torch.distributed.reduce_scatter(
                         bias_grad_partition,
                         bias_grads,
@@ -305,6 +309,9 @@ class GPTNeoXKFACEigenLayer(KFACEigenLayer):
                     )
                     bias_grad = bias_grad_partition
                 else:
+                    if get_rank() != self.primary_rank:
+                        assert bias_grad is not None
+                        bias_grad = torch.empty_like(bias_grad)
                     torch.distributed.broadcast(
                         bias_grad,
                         src=self.primary_rank,
